@@ -13,7 +13,10 @@ or executed.  Small pure integer helpers (weekday arithmetic, interval overlap) 
   C15.guard       `x.a if x.b is not None else c` (and `if x.b is not None: return ..x.a..`) reads the field it guards
   C15.weekday     date_of_last_day / date_of_next_day are exact on all 7x7 inputs; last_/next_date_value and the range
                   resolver hand them day_of_week - 1 and the right sibling
-  C15.halfopen    constraint membership is start <= x < end; dates_matching_day walks [start, end)
+  C15.halfopen    constraint membership is start <= x < end; dates_matching_day, run on 392 probes, yields exactly the
+                  days of the weekday in [start, end)
+  C15.monthend    month_date_range / year_date_range / expand_datetime_range / timex_date_add(months) run for every month:
+                  the end is the first day of the following month, the year is carried when the month wraps
   C15.overlap     is_overlapping of DateRange and TimeRange equals interval overlap on an exhaustive small domain;
                   collapse_overlapping is (max start, min end)
   C15.remove      inner_collapse removes exactly the two collapsed elements
@@ -33,13 +36,16 @@ META = {
             'field only through a wrap; (year, month, day) triples are not mixed from two date objects; the '
             'duration seconds table equals the reference; attribute names used on Timex/Time/range values exist; '
             'conditional reads use the field they guard; weekday helpers are exact for all 49 (day, weekday) pairs and '
-            'last/next callers pass day_of_week-1 to the right sibling; constraint membership is half-open; '
+            'last/next callers pass day_of_week-1 to the right sibling; constraint membership is half-open and '
+            'dates_matching_day equals {d in [start,end): weekday(d)=day} on 392 probes; month ranges and month addition '
+            'evaluated for every month (year carried on wrap); '
             'is_overlapping equals interval overlap and collapse is (max start, min end) on an exhaustive small '
             'domain; inner_collapse removes the collapsed pair; carry thresholds are field maxima.',
     'note': 'Not decided: which days a constraint set admits beyond the above (intersection/union policy of collapse), '
             'termination of collapse in general, TimexCreator constants, the english/ converters, arithmetic on '
             'hour/minute that is only ever compared (TimexHelpers.add_time builds range ends beyond 24:00 on '
-            'purpose). Kinds of values are inferred from annotations, constructor calls, clone/copy and package '
+            'purpose), dates_matching_day for start > end (the range constructors never produce it; the shipped '
+            'loop would not end), TimexValue.date_value (abstracted as the Timex it prints). Kinds of values are inferred from annotations, constructor calls, clone/copy and package '
             'call sites only; an attribute on a value of unknown kind is only checked against the union of all '
             'attribute names. The range rule accepts any test of the field against a constant as a wrap.',
     'technique': 'ast: sink/source rules with flow-insensitive local resolution, light inter-procedural kind '
@@ -725,54 +731,118 @@ class Obj(dict):
 
 
 class Ev:
-    def __init__(self, cx, mod):
+    """concrete evaluation of syntax trees: ints, bools, None, strings, lists, tuples, sets; package objects as Obj
+    (constructor = its __init__ parameters, which C14.wiring shows are stored under their own names); dates as
+    ('ref', k) = reference day + k days, timedelta as ('td', n); weekday() from wd0 = weekday of the reference day"""
+    LOOP_CAP = 400
+
+    def __init__(self, cx, mod, wd0=0, depth=0):
         self.cx = cx
         self.mod = mod
+        self.wd0 = wd0
+        self.depth = depth
 
     def run(self, fn, args):
         env = dict(zip(params_of(fn), args))
         r = self.block(fn.body, env)
         return r[1] if r else None
 
+    def store(self, tgt, val, env):
+        if isinstance(tgt, ast.Name):
+            env[tgt.id] = val
+        elif isinstance(tgt, ast.Attribute):
+            o = self.ev(tgt.value, env)
+            if not isinstance(o, Obj):
+                raise EvalError('attribute store on %s' % type(o).__name__)
+            if tgt.attr not in o:
+                raise EvalError('store to undefined attribute %s' % tgt.attr)
+            o[tgt.attr] = val
+        elif isinstance(tgt, (ast.Tuple, ast.List)):
+            if not isinstance(val, (tuple, list)) or len(val) != len(tgt.elts) or (val and val[0] in ('ref', 'td')):
+                raise EvalError('tuple unpacking')
+            for t, v in zip(tgt.elts, val):
+                self.store(t, v, env)
+        else:
+            raise EvalError('assignment target %s' % type(tgt).__name__)
+
     def block(self, stmts, env):
         for st in stmts:
             if isinstance(st, ast.Return):
                 return ('ret', self.ev(st.value, env) if st.value is not None else None)
-            if isinstance(st, ast.Assign) and len(st.targets) == 1 and isinstance(st.targets[0], ast.Name):
-                env[st.targets[0].id] = self.ev(st.value, env)
-            elif isinstance(st, ast.AugAssign) and isinstance(st.target, ast.Name):
-                env[st.target.id] = self.binop(st.op, env[st.target.id], self.ev(st.value, env))
+            if isinstance(st, ast.Assign):
+                v = self.ev(st.value, env)
+                for t in st.targets:
+                    self.store(t, v, env)
+            elif isinstance(st, ast.AugAssign):
+                cur = self.ev(ast.Name(id=st.target.id, ctx=ast.Load()) if isinstance(st.target, ast.Name)
+                              else ast.Attribute(value=st.target.value, attr=st.target.attr, ctx=ast.Load())
+                              if isinstance(st.target, ast.Attribute) else st.target, env)
+                self.store(st.target, self.binop(st.op, cur, self.ev(st.value, env)), env)
             elif isinstance(st, ast.If):
                 r = self.block(st.body if self.ev(st.test, env) else st.orelse, env)
                 if r:
                     return r
-            elif isinstance(st, ast.Expr) and isinstance(st.value, ast.Constant):
-                continue
+            elif isinstance(st, ast.While):
+                n = 0
+                while self.ev(st.test, env):
+                    n += 1
+                    if n > self.LOOP_CAP:
+                        raise EvalError('loop does not end within %d iterations' % self.LOOP_CAP)
+                    r = self.block(st.body, env)
+                    if r:
+                        return r
+            elif isinstance(st, ast.For):
+                it = self.ev(st.iter, env)
+                if not isinstance(it, (list, range)) or len(it) > self.LOOP_CAP:
+                    raise EvalError('for loop over %s' % type(it).__name__)
+                for v in it:
+                    self.store(st.target, v, env)
+                    r = self.block(st.body, env)
+                    if r:
+                        return r
+            elif isinstance(st, ast.Expr):
+                if isinstance(st.value, ast.Constant):
+                    continue
+                self.ev(st.value, env)
             elif isinstance(st, (ast.Pass, ast.Import, ast.ImportFrom)):
                 continue
             else:
                 raise EvalError('statement %s' % type(st).__name__)
         return None
 
+    @staticmethod
+    def is_date(v):
+        return isinstance(v, tuple) and len(v) == 2 and v[0] == 'ref'
+
+    @staticmethod
+    def is_td(v):
+        return isinstance(v, tuple) and len(v) == 2 and v[0] == 'td'
+
     def binop(self, op, a, b):
-        if isinstance(a, tuple) or isinstance(b, tuple):
-            # ('ref', k) +- ('td', n)
-            if isinstance(a, tuple) and a[0] == 'ref' and isinstance(b, tuple) and b[0] == 'td':
-                if isinstance(op, ast.Add):
-                    return ('ref', a[1] + b[1])
-                if isinstance(op, ast.Sub):
-                    return ('ref', a[1] - b[1])
+        if self.is_date(a) or self.is_td(a) or self.is_date(b) or self.is_td(b):
+            add, sub = isinstance(op, ast.Add), isinstance(op, ast.Sub)
+            if self.is_date(a) and self.is_td(b) and (add or sub):
+                return ('ref', a[1] + b[1] if add else a[1] - b[1])
+            if self.is_td(a) and self.is_date(b) and add:
+                return ('ref', a[1] + b[1])
+            if self.is_date(a) and self.is_date(b) and sub:
+                return ('td', a[1] - b[1])
+            if self.is_td(a) and self.is_td(b) and (add or sub):
+                return ('td', a[1] + b[1] if add else a[1] - b[1])
             raise EvalError('date arithmetic')
-        if isinstance(op, ast.Add):
-            return a + b
-        if isinstance(op, ast.Sub):
-            return a - b
-        if isinstance(op, ast.Mult):
-            return a * b
-        if isinstance(op, ast.Mod):
-            return a % b
-        if isinstance(op, ast.FloorDiv):
-            return a // b
+        try:
+            if isinstance(op, ast.Add):
+                return a + b
+            if isinstance(op, ast.Sub):
+                return a - b
+            if isinstance(op, ast.Mult):
+                return a * b
+            if isinstance(op, ast.Mod):
+                return a % b
+            if isinstance(op, ast.FloorDiv):
+                return a // b
+        except (TypeError, ZeroDivisionError) as ex:
+            raise EvalError('arithmetic raises %s' % type(ex).__name__)
         raise EvalError('operator %s' % type(op).__name__)
 
     def ev(self, e, env):
@@ -787,6 +857,10 @@ class Ev:
             if r and r[0] == 'class':
                 return r[1]
             raise EvalError('name %s' % e.id)
+        if isinstance(e, ast.Tuple):
+            return tuple(self.ev(x, env) for x in e.elts)
+        if isinstance(e, ast.List):
+            return [self.ev(x, env) for x in e.elts]
         if isinstance(e, ast.BinOp):
             return self.binop(e.op, self.ev(e.left, env), self.ev(e.right, env))
         if isinstance(e, ast.UnaryOp):
@@ -813,11 +887,15 @@ class Ev:
                 right = self.ev(rn, env)
                 ok = {ast.Lt: lambda a, b: a < b, ast.LtE: lambda a, b: a <= b, ast.Gt: lambda a, b: a > b,
                       ast.GtE: lambda a, b: a >= b, ast.Eq: lambda a, b: a == b, ast.NotEq: lambda a, b: a != b,
-                      ast.Is: lambda a, b: a is b, ast.IsNot: lambda a, b: a is not b}.get(type(op))
+                      ast.Is: lambda a, b: a is b, ast.IsNot: lambda a, b: a is not b,
+                      ast.In: lambda a, b: a in b, ast.NotIn: lambda a, b: a not in b}.get(type(op))
                 if ok is None:
                     raise EvalError('comparison')
-                if not ok(left, right):
-                    return False
+                try:
+                    if not ok(left, right):
+                        return False
+                except TypeError:
+                    raise EvalError('comparison raises TypeError')
                 left = right
             return True
         if isinstance(e, ast.Attribute):
@@ -826,6 +904,8 @@ class Ev:
                 if e.attr not in b:
                     raise EvalError('attribute %s' % e.attr)
                 return b[e.attr]
+            if self.is_td(b) and e.attr == 'days':
+                return b[1]
             if hasattr(b, 'attrs') and hasattr(b, 'methods'):      # index.Cls
                 if e.attr in b.attrs:
                     try:
@@ -843,35 +923,79 @@ class Ev:
             except Exception:
                 raise EvalError('subscript')
         if isinstance(e, ast.Call):
-            ch = chain(e.func) or ''
-            last = ch.split('.')[-1]
-            args = [self.ev(a, env) for a in e.args]
-            kws = {k.arg: self.ev(k.value, env) for k in e.keywords}
-            if ch in ('max', 'min', 'int', 'abs') and not kws:
-                return getattr(builtins, ch)(*args)
-            if last == 'timedelta':
-                if set(kws) - {'days'} or len(args) > 1:
-                    raise EvalError('timedelta arguments')
-                return ('td', kws.get('days', args[0] if args else 0))
-            if isinstance(e.func, ast.Attribute):
-                recv = None
-                try:
-                    recv = self.ev(e.func.value, env)
-                except EvalError:
-                    recv = None
-                if isinstance(recv, tuple) and recv[0] == 'ref' and last == 'weekday' and not args:
-                    return (env['#wd'] + recv[1]) % 7
-                if last == 'get_time' and not args and recv is not None:
-                    return recv                              # Time abstracted as its number of milliseconds
-                if last == 'from_seconds' and len(args) == 1:
-                    return args[0]
-                if isinstance(recv, Obj) and last in recv.get('#methods', {}):
-                    c, fn = recv['#methods'][last]
-                    return Ev(self.cx, c.mod).run(fn, [recv] + args)
-            if ch in self.cx.classes or ch == 'cls':
-                return Obj(zip(('start', 'end'), args))
-            raise EvalError('call %s' % ch)
+            return self.call(e, env)
         raise EvalError('expression %s' % type(e).__name__)
+
+    def construct(self, c, args, kws):
+        init = c.methods.get('__init__')
+        if init is None:
+            if args or kws:
+                raise EvalError('constructor arguments of %s' % c.name)
+            return Obj()
+        ps = params_of(init)[1:]
+        defaults = dict(zip(ps[len(ps) - len(init.args.defaults):], init.args.defaults))
+        o = Obj()
+        if len(args) > len(ps) or set(kws) - set(ps):
+            raise EvalError('constructor arguments of %s' % c.name)
+        for i, p in enumerate(ps):
+            if i < len(args):
+                o[p] = args[i]
+            elif p in kws:
+                o[p] = kws[p]
+            elif p in defaults and isinstance(defaults[p], ast.Constant):
+                o[p] = defaults[p].value
+            else:
+                raise EvalError('constructor of %s: no value for %s' % (c.name, p))
+        if c.name == 'Timex' and o.get('timex') is not None:
+            raise EvalError('Timex parsed from a string')
+        o['#class'] = c.name
+        return o
+
+    def call(self, e, env):
+        ch = chain(e.func) or ''
+        last = ch.split('.')[-1]
+        args = [self.ev(a, env) for a in e.args]
+        kws = {k.arg: self.ev(k.value, env) for k in e.keywords}
+        if ch in ('max', 'min', 'int', 'abs', 'len', 'range', 'list', 'sorted') and not kws:
+            try:
+                return getattr(builtins, ch)(*args)
+            except (TypeError, ValueError) as ex:
+                raise EvalError('%s raises %s' % (ch, type(ex).__name__))
+        if last == 'timedelta':
+            if set(kws) - {'days'} or len(args) > 1:
+                raise EvalError('timedelta arguments')
+            return ('td', kws.get('days', args[0] if args else 0))
+        if isinstance(e.func, ast.Attribute):
+            try:
+                recv = self.ev(e.func.value, env)
+            except EvalError:
+                recv = None
+            if self.is_date(recv) and last == 'weekday' and not args:
+                return (self.wd0 + recv[1]) % 7
+            if isinstance(recv, list) and last in ('append', 'extend') and len(args) == 1:
+                getattr(recv, last)(args[0])
+                return None
+            if last == 'get_time' and not args and recv is not None:
+                return recv                              # Time abstracted as its number of milliseconds
+            if last == 'from_seconds' and len(args) == 1:
+                return args[0]
+            if last == 'date_value' and len(args) == 1 and isinstance(args[0], Obj):
+                return args[0]                           # the formatted date abstracted as the Timex it prints
+            if hasattr(recv, 'methods') and last in recv.methods:          # static / class method of a package class
+                if self.depth > 6:
+                    raise EvalError('call depth')
+                fn = recv.methods[last]
+                ps = params_of(fn)
+                if ps and ps[0] in ('self', 'cls'):
+                    args = [recv] + args
+                if kws or len(args) != len(ps):
+                    raise EvalError('arguments of %s' % ch)
+                return Ev(self.cx, recv.mod, self.wd0, self.depth + 1).run(fn, args)
+        if ch in self.cx.classes:
+            return self.construct(self.cx.classes[ch], args, kws)
+        if ch == 'cls':
+            return Obj(zip(('start', 'end'), args))
+        raise EvalError('call %s' % ch)
 
 
 def rule_weekday(cx, chk):
@@ -886,11 +1010,10 @@ def rule_weekday(cx, chk):
         bad = None
         for day in range(7):
             for wd in range(7):
-                ev = Ev(cx, dh.mod)
+                ev = Ev(cx, dh.mod, wd0=wd)
                 env_args = [day, ('ref', 0)]
                 try:
                     e = dict(zip(ps, env_args))
-                    e['#wd'] = wd
                     r = ev.block(fn.body, e)
                 except EvalError as ex:
                     raise AnalysisError('TimexDateHelpers.%s: not evaluable (%s)' % (name, ex))
@@ -928,14 +1051,6 @@ def rule_weekday(cx, chk):
         raise AnalysisError('TimexRangeResolver.resolve_date_against_constraint: no call to dates_matching_day')
     for call in calls:
         judge_day_arg(cx, chk, rr, fn, call, params_of(fn)[0], 'TimexRangeResolver.resolve_date_against_constraint')
-    # dates_matching_day compares python weekday() with its first parameter
-    dm = cx.meth('TimexDateHelpers', 'dates_matching_day')
-    p0 = params_of(dm)[0]
-    cmp_ok = any(isinstance(n, ast.Compare) and len(n.ops) == 1 and isinstance(n.ops[0], ast.Eq) and
-                 {ast.unparse(n.left).split('.')[-1], ast.unparse(n.comparators[0]).split('.')[-1]} == {'weekday()', p0}
-                 for n in ast.walk(dm))
-    chk.judge(cmp_ok, 'C15.weekday', path, 'TimexDateHelpers.dates_matching_day filter', 'd.weekday() == ' + p0,
-              'dates_matching_day must keep the dates whose weekday() equals its first parameter', dm.lineno)
 
 
 def judge_day_arg(cx, chk, cls, fn, call, timex_param, where):
@@ -1020,52 +1135,128 @@ def rule_halfopen(cx, chk):
                   'the start of a constraint is inclusive (start <= x); found %s' % lo[1], fn.lineno)
         chk.judge(hi[0] == '<', 'C15.halfopen', rr.mod.path, 'TimexRangeResolver.%s upper bound' % name, hi[1],
                   'the end of a constraint is exclusive (x < end); found %s' % hi[1], fn.lineno)
-    # dates_matching_day walks [start, end)
+    # dates_matching_day(day, start, end) = {d in [start, end) : weekday(d) == day}, decided by running its syntax
+    # tree on probes: every weekday of start, every searched day, lengths incl. 0 and ends that fall on the day
     dh = cx.cls('TimexDateHelpers')
     fn = cx.meth('TimexDateHelpers', 'dates_matching_day')
-    ps = params_of(fn)
-    loops = [n for n in fn.body if isinstance(n, ast.While)]
-    if len(loops) != 1 or len(ps) != 3:
-        raise AnalysisError('TimexDateHelpers.dates_matching_day: expected (day, start, end) and one while loop')
-    loop = loops[0]
-    cur = None
-    for st in fn.body:
-        if isinstance(st, ast.Assign) and isinstance(st.value, ast.Name) and st.value.id == ps[1] \
-                and isinstance(st.targets[0], ast.Name):
-            cur = st.targets[0].id
-    if cur is None:
-        raise AnalysisError('dates_matching_day: cursor initialised from %s not found' % ps[1])
-    t = loop.test
-    form = None
-    neg = False
-    if isinstance(t, ast.UnaryOp) and isinstance(t.op, ast.Not):
-        neg, t = True, t.operand
-    if isinstance(t, ast.Call) and (chain(t.func) or '').endswith('date_part_equal') \
-            and {chain(a) for a in t.args} == {cur, ps[2]}:
-        form = 'x != end' if neg else 'x == end'
-    elif isinstance(t, ast.Compare) and len(t.ops) == 1:
-        a = atoms(t)[0]
-        if a[0] == cur and a[2] == ps[2]:
-            form = 'x %s end' % a[1]
-        elif a[0] == ps[2] and a[2] == cur:
-            form = 'end %s x' % a[1]
-        if neg and form:
-            form = 'not (%s)' % form
-    if form is None:
-        raise AnalysisError('dates_matching_day: loop condition not recognised: ' + ast.unparse(loop.test))
-    chk.judge(form in ('x != end', 'x < end', 'x NotEq end'), 'C15.halfopen', dh.mod.path,
-              'TimexDateHelpers.dates_matching_day loop', form,
-              'the walk over a constraint must stop before its end (x != end / x < end); found %s' % form, loop.lineno)
-    # the test-and-append precedes the increment
-    order = []
-    for st in loop.body:
-        if isinstance(st, ast.If):
-            order.append('test')
-        elif isinstance(st, (ast.Assign, ast.AugAssign)) and cur in {n.id for n in ast.walk(st) if isinstance(n, ast.Name)}:
-            order.append('step')
-    chk.judge(order[:2] == ['test', 'step'], 'C15.halfopen', dh.mod.path,
-              'TimexDateHelpers.dates_matching_day start inclusive', '>'.join(order),
-              'the cursor is advanced before the weekday test: the start of the constraint is skipped', loop.lineno)
+    if len(params_of(fn)) != 3:
+        raise AnalysisError('TimexDateHelpers.dates_matching_day: expected (day, start, end)')
+    bad = None
+    n = 0
+    for wd0 in range(7):
+        for day in range(7):
+            for length in (0, 1, 6, 7, 8, 14, 29, 31):
+                want = [k for k in range(length) if (wd0 + k) % 7 == day]
+                try:
+                    got = Ev(cx, dh.mod, wd0=wd0).run(fn, [day, ('ref', 0), ('ref', length)])
+                except EvalError as ex:
+                    if 'does not end' in str(ex):
+                        got = str(ex)
+                    else:
+                        raise AnalysisError('TimexDateHelpers.dates_matching_day: not evaluable (%s)' % ex)
+                n += 1
+                if isinstance(got, list) and all(Ev.is_date(g) for g in got):
+                    got = [g[1] for g in got]
+                if got != want and (bad is None or (bad[2] == 0 and length >= 7)):
+                    bad = (day, wd0, length, got, want)      # prefer a non-degenerate counterexample
+    chk.extra['dates_matching_day_probes'] = n
+    chk.judge(bad is None, 'C15.halfopen', dh.mod.path, 'TimexDateHelpers.dates_matching_day on %d probes' % n,
+              '= {d in [start,end): weekday(d)=day}' if bad is None else
+              'day=%d start weekday=%d length=%d -> offsets %s' % bad[:4],
+              'dates_matching_day(day=%d, start (a weekday %d), end = start + %d days) yields the offsets %s from start, '
+              'the days of that weekday in the half-open range [start, end) are %s'
+              % (bad or (0, 0, 0, '', '')), fn.lineno)
+
+
+def ymd(o):
+    if not isinstance(o, Obj):
+        raise EvalError('not a Timex: %r' % (o,))
+    return (o.get('year'), o.get('month'), o.get('day_of_month'))
+
+
+def next_month(y, m):
+    return (y + 1, 1, 1) if m == 12 else (y, m + 1, 1)
+
+
+def rule_monthend(cx, chk):
+    """month ranges and month addition, decided by running the syntax trees for every month (year carried on wrap)"""
+    Y = 2016
+    timex_cls = cx.cls('Timex')
+    res = cx.cls('TimexResolver')
+    hel = cx.cls('TimexHelpers')
+
+    def timex(**kw):
+        o = Ev(cx, timex_cls.mod).construct(timex_cls, [], kw)
+        return o
+
+    # TimexResolver.month_date_range(year, month) -> (first day, first day of the following month)
+    fn = cx.meth('TimexResolver', 'month_date_range')
+    bad = None
+    for m in range(1, 13):
+        try:
+            r = Ev(cx, res.mod).run(fn, [Y, m])
+            got = (ymd(r[0]), ymd(r[1])) if isinstance(r, tuple) and len(r) == 2 else None
+        except EvalError as ex:
+            raise AnalysisError('TimexResolver.month_date_range: not evaluable (%s)' % ex)
+        want = ((Y, m, 1), next_month(Y, m))
+        if got != want and bad is None:
+            bad = (m, got, want)
+    chk.judge(bad is None, 'C15.monthend', res.mod.path, 'TimexResolver.month_date_range for months 1..12',
+              '[y-m-01, first day of next month)' if bad is None else 'month %d -> %s' % bad[:2],
+              'month_date_range(%d, %d) yields %s, expected %s: the exclusive end must be the first day of the following '
+              'month in the right year' % ((Y,) + (bad or (0, '', ''))), fn.lineno)
+
+    # TimexRangeResolver year range
+    fn = cx.meth('TimexResolver', 'year_date_range')
+    try:
+        r = Ev(cx, res.mod).run(fn, [Y])
+        got = (ymd(r[0]), ymd(r[1]))
+    except (EvalError, TypeError, IndexError) as ex:
+        raise AnalysisError('TimexResolver.year_date_range: not evaluable (%s)' % ex)
+    chk.judge(got == ((Y, 1, 1), (Y + 1, 1, 1)), 'C15.monthend', res.mod.path, 'TimexResolver.year_date_range',
+              '%s' % (got,), 'year_date_range(%d) yields %s, expected Jan 1st of the year and of the next year' % (Y, got),
+              fn.lineno)
+
+    # TimexHelpers.expand_datetime_range for 'YYYY-MM' and 'YYYY'
+    fn = cx.meth('TimexHelpers', 'expand_datetime_range')
+    consts = cx.cls('Constants')
+    dr = consts.attrs.get('TIMEX_TYPES_DATERANGE')
+    if not isinstance(dr, ast.Constant):
+        raise AnalysisError('anchor vanished: Constants.TIMEX_TYPES_DATERANGE')
+    bad = None
+    for m in list(range(1, 13)) + [None]:
+        t = timex(year=Y, month=m)
+        t['types'] = {dr.value}
+        try:
+            r = Ev(cx, hel.mod).run(fn, [t])
+            got = (ymd(r['start']), ymd(r['end']))
+        except (EvalError, KeyError, TypeError) as ex:
+            raise AnalysisError('TimexHelpers.expand_datetime_range: not evaluable (%s)' % ex)
+        want = ((Y, m, 1), next_month(Y, m)) if m else ((Y, 1, 1), (Y + 1, 1, 1))
+        if got != want and bad is None:
+            bad = (m, got, want)
+    chk.judge(bad is None, 'C15.monthend', hel.mod.path, 'TimexHelpers.expand_datetime_range for YYYY and YYYY-01..12',
+              '[first day, first day of next period)' if bad is None else 'month %s -> %s' % bad[:2],
+              'expand_datetime_range(year %d, month %s) yields %s, expected %s' % ((Y,) + (bad or ('', '', ''))), fn.lineno)
+
+    # TimexHelpers.timex_date_add(start, P<k>M)
+    fn = cx.meth('TimexHelpers', 'timex_date_add')
+    bad = None
+    for m in range(1, 13):
+        for k in (1, 11, 12, 13):
+            start = timex(year=Y, month=m, day_of_month=5)
+            dur = timex(months=k)
+            try:
+                got = ymd(Ev(cx, hel.mod).run(fn, [start, dur]))
+            except EvalError as ex:
+                raise AnalysisError('TimexHelpers.timex_date_add: not evaluable (%s)' % ex)
+            tot = m - 1 + k
+            want = (Y + tot // 12, tot % 12 + 1, 5)
+            if got != want and bad is None:
+                bad = (m, k, got, want)
+    chk.judge(bad is None, 'C15.monthend', hel.mod.path, 'TimexHelpers.timex_date_add months 1..12 + {1,11,12,13}',
+              'year carried' if bad is None else '%d-%02d-05 + P%dM -> %s' % ((Y,) + bad[:3]),
+              'timex_date_add(%d-%02d-05, P%dM) yields %s, expected %s' % ((Y,) + (bad or (0, 0, '', ''))), fn.lineno)
 
 
 def small_ranges(n=5):
@@ -1236,7 +1427,9 @@ def run(chk):
              floor=150, control=True)
     chk.rule('C15.guard', 'a value guarded by `x.f is not None` reads x.f', floor=8, control=True)
     chk.rule('C15.weekday', 'weekday helpers exact on 7x7; callers pass day_of_week-1 to the right sibling', floor=9)
-    chk.rule('C15.halfopen', 'constraint membership is start <= x < end; dates_matching_day walks [start, end)', floor=6)
+    chk.rule('C15.halfopen', 'constraint membership is start <= x < end; dates_matching_day yields exactly the matching days of [start, end) on probes', floor=5)
+    chk.rule('C15.monthend', 'month_date_range / year_date_range / expand_datetime_range / timex_date_add(months) evaluated '
+                             'for every month: end is the first day of the following month, year carried', floor=4)
     chk.rule('C15.overlap', 'is_overlapping = interval overlap, collapse_overlapping = (max start, min end), both range '
                             'types, exhaustive over a small domain', floor=6)
     chk.rule('C15.remove', 'inner_collapse removes exactly one element per removal', floor=1, control=True)
@@ -1251,6 +1444,7 @@ def run(chk):
     rule_guard(cx, chk)
     rule_weekday(cx, chk)
     rule_halfopen(cx, chk)
+    rule_monthend(cx, chk)
     rule_overlap(cx, chk)
     rule_remove(cx, chk)
     rule_carry(cx, chk)
